@@ -73,6 +73,16 @@ func init() {
 			}
 			return opqBytes(ot("pubuncompT", t.Args[0], 1)), true
 		},
+		// AltForm: the other form of an (abstract) block identifier: a distinct identifier, the same for the same argument
+		"AltForm": func(in *Interp, fr *Frame, a []Value) (Value, bool) {
+			if at, ok := cidAtom(a[0]); ok {
+				return cidOf(in.newAtom("cid", "alt:"+at.Key)), true
+			}
+			if t, ok := opaqueOfStr(a[0].R.([]Value)[0]); ok && t.Ctor == "cidof" {
+				return Value{K: KStruct, R: []Value{opqStr(ot("cidof", ot("altform", t.Args[0])))}}, true
+			}
+			return declined() // a real identifier: the native definition runs
+		},
 		"Cid": func(in *Interp, fr *Frame, a []Value) (Value, bool) {
 			return cidOf(in.newAtom("cid", fmt.Sprintf("c%d", a[0].N))), true
 		},
